@@ -20,6 +20,7 @@ type FuncResult struct {
 	Notes       []string
 	OutOfSubset []string
 	Errors      []string
+	ss          *SpecSet
 }
 
 func (w *World) contractFor(ss *SpecSet, fn *ssa.Function) *Contract {
@@ -91,6 +92,11 @@ func (e *enc) lookupLocal(fr *frame, h *ssa.BasicBlock, phiVals map[*ssa.Phi]Ter
 		}
 	}
 	if best != nil {
+		if p, ok := fr.prov[best]; ok {
+			if _, isMap := best.Type().Underlying().(*types.Map); isMap {
+				return e.mkT(e.readIn(mem, p), best.Type()), true
+			}
+		}
 		return e.mkT(e.value(best), best.Type()), true
 	}
 	return tval{}, false
@@ -111,7 +117,18 @@ func (e *enc) loopEnv(fr *frame, h *ssa.BasicBlock, phiVals map[*ssa.Phi]Term, m
 	env := e.fnEnv(fr, mem)
 	env.locals = func(name string) (tval, bool) { return e.lookupLocal(fr, h, phiVals, mem, name) }
 	env.hash = func(name string) (Term, bool) {
-		if name != "i" {
+		if strings.HasPrefix(name, "i") && len(name) > 1 {
+			// #i<k>: completed iterations of the enclosing range loop with ordinal k
+			for hh, ls := range fr.loops {
+				if fmt.Sprint(ls.ord) == name[1:] && ls.rangeIdx != nil {
+					if hh == h {
+						break
+					}
+					return fmt.Sprintf("(+ %s 1)", ls.phiPre[ls.rangeIdx]), true
+				}
+			}
+		}
+		if name != "i" && name != fmt.Sprintf("i%d", fr.loopOrd[h]) {
 			return "", false
 		}
 		for _, in := range h.Instrs {
@@ -158,10 +175,15 @@ func (e *enc) fnEnv(fr *frame, mem map[string]Term) *specEnv {
 
 // verifyFunc generates all obligations of one function: safety sweep, contract (if any), vacuity covers.
 func verifyFunc(w *World, ss *SpecSet, fn *ssa.Function, sweep bool) *FuncResult {
+	return verifyFuncMode(w, ss, fn, sweep, false)
+}
+
+func verifyFuncMode(w *World, ss *SpecSet, fn *ssa.Function, sweep, finder bool) *FuncResult {
 	ct := w.contractFor(ss, fn)
 	e := newEnc(w, ss, fn)
 	e.sweep = sweep
-	res := &FuncResult{Fn: fn, Name: fnFull(fn), Contract: ct, Enc: e}
+	e.finder = finder
+	res := &FuncResult{Fn: fn, Name: fnFull(fn), Contract: ct, Enc: e, ss: ss}
 	defer func() {
 		if r := recover(); r != nil {
 			res.Errors = append(res.Errors, fmt.Sprintf("ENGINE-ERROR in %s: %v", fnFull(fn), r))
@@ -250,6 +272,7 @@ func verifyFunc(w *World, ss *SpecSet, fn *ssa.Function, sweep bool) *FuncResult
 		}
 		rty := fn.Signature.Results().At(j).Type()
 		env.results = append(env.results, e.mkT(e.define("result", e.so.of(rty), t), rty))
+		e.resultTerms = append(e.resultTerms, modelVar{Name: fmt.Sprintf("r%d", j), Term: env.results[j].t, Ty: rty})
 	}
 	for i, en := range ct.Ensures {
 		g, err := e.specBool(env, en.E)
